@@ -106,7 +106,7 @@ Proof.
   reflexivity.
 Qed.
 
-Lemma local_time_tt_ok abbrs t ty : int64 t -> -86400 <= tt_off ty <= 86400 ->
+Lemma local_time_tt_ok abbrs t ty : int64 t -> -93599 <= tt_off ty <= 93599 ->
   0 <= tt_abbr ty <= Z.of_nat (length abbrs) ->
   local_time_tt abbrs t ty =
   OK (mkAL (cos (t + tt_off ty)) (tt_off ty) (tt_isdst ty)
@@ -186,7 +186,7 @@ Qed.
 (* a valid type index *)
 Lemma type_facts z i : zfacts z -> idx_ok z i = true ->
   exists ty, nth_res (z_types z) i = OK ty /\ tt_off ty = off_of z i /\
-    -86400 <= off_of z i <= 86400 /\
+    -93599 <= off_of z i <= 93599 /\
     tt_cmax ty = cos (max64 + off_of z i) /\ tt_cmin ty = cos (min64 + off_of z i) /\
     0 <= tt_abbr ty <= Z.of_nat (length (z_abbrs z)).
 Proof.
@@ -201,14 +201,14 @@ Proof.
   destruct T as [[[[[T1 T2] T3] T4] T5] T6]. repeat split; auto.
 Qed.
 
-Lemma off_bound z i : zfacts z -> idx_ok z i = true -> -86400 <= off_of z i <= 86400.
+Lemma off_bound z i : zfacts z -> idx_ok z i = true -> -93599 <= off_of z i <= 93599.
 Proof. intros F Hi. destruct (type_facts z i F Hi) as (ty & _ & _ & H & _). exact H. Qed.
 
-Lemma doff_bound z : zfacts z -> -86400 <= doff z <= 86400.
+Lemma doff_bound z : zfacts z -> -93599 <= doff z <= 93599.
 Proof. intros F. apply off_bound; auto. apply zf_dflt; auto. Qed.
 
 (* offset in force before index i is a bounded offset *)
-Lemma ob_bound z i : zfacts z -> -86400 <= ob (doff z) (absl z) i <= 86400.
+Lemma ob_bound z i : zfacts z -> -93599 <= ob (doff z) (absl z) i <= 93599.
 Proof.
   intros F. destruct i as [|j]; cbn [ob]; [apply doff_bound; auto|].
   rewrite absl_nth. destruct (nth_error (z_trans z) j) as [tr|] eqn:E; cbn [option_map].
@@ -236,7 +236,7 @@ Qed.
 (* everything about transition number i *)
 Lemma tr_facts z i tr : zfacts z -> nth_error (z_trans z) i = Some tr ->
   idx_ok z (tr_type tr) = true /\ - 2 ^ 59 <= tr_time tr <= 2 ^ 60 /\
-  -86400 <= off_of z (tr_type tr) <= 86400 /\
+  -93599 <= off_of z (tr_type tr) <= 93599 /\
   tr_cs tr = cos (tr_time tr + off_of z (tr_type tr)) /\
   tr_pcs tr = cos (tr_time tr - 1 + ob (doff z) (absl z) i) /\
   nth_error (absl z) i = Some (absf z tr).
@@ -660,8 +660,8 @@ Ltac stp :=
   cbn [bind].
 
 Lemma make_skipped_ok z cs tr po : valid_fields cs = true -> int64 (fy cs) ->
-  - 2 ^ 59 <= tr_time tr <= 2 ^ 60 -> -86400 <= off_of z (tr_type tr) <= 86400 ->
-  -86400 <= po <= 86400 ->
+  - 2 ^ 59 <= tr_time tr <= 2 ^ 60 -> -93599 <= off_of z (tr_type tr) <= 93599 ->
+  -93599 <= po <= 93599 ->
   tr_cs tr = cos (tr_time tr + off_of z (tr_type tr)) ->
   tr_pcs tr = cos (tr_time tr - 1 + po) ->
   tr_time tr - 1 + po < sec_of cs < tr_time tr + off_of z (tr_type tr) ->
@@ -678,8 +678,8 @@ Proof.
 Qed.
 
 Lemma make_repeated_ok z cs tr po : valid_fields cs = true -> int64 (fy cs) ->
-  - 2 ^ 59 <= tr_time tr <= 2 ^ 60 -> -86400 <= off_of z (tr_type tr) <= 86400 ->
-  -86400 <= po <= 86400 ->
+  - 2 ^ 59 <= tr_time tr <= 2 ^ 60 -> -93599 <= off_of z (tr_type tr) <= 93599 ->
+  -93599 <= po <= 93599 ->
   tr_cs tr = cos (tr_time tr + off_of z (tr_type tr)) ->
   tr_pcs tr = cos (tr_time tr - 1 + po) ->
   tr_time tr + off_of z (tr_type tr) <= sec_of cs <= tr_time tr - 1 + po ->
